@@ -16,7 +16,7 @@
 From Avfs Require Import Base PathModel PathSpec PathProofs PathCleanProofs PathIterProofs.
 From Coq Require Import Permutation.
 From Avfs Require Import MemFS MemFile World Posix Inv WalkBridge WalkSym WalkBudget WalkReadlink WalkRel StepEq WalkInv StepInv
-  HeapEq HeapEqSnap StepRename StepRenameDir StepHist StepCwd StepMkdirAll StepHistM StepRemoveAll StepRemoveAllEx.
+  HeapEq HeapEqSnap StepRename StepRenameDir StepHist StepCwd StepMkdirAll StepHistM StepRemoveAll StepRemoveAllEx StepOpen StepHistO.
 
 Theorem C01_step_stat : forall (s : fsys) (sv : sview) (cs : list str),
   step_hyps s sv -> path_ok s sv SlStat cs ->
@@ -437,3 +437,55 @@ Proof.
   split; [exact StepRemoveAllExamples.ra_instance|].
   split; [exact StepRemoveAllExamples.ra_answer|exact StepRemoveAllExamples.ra_heaps_differ].
 Qed.
+
+(* ---- OpenFile with any flag word ------------------------------------------------------------------------------------------------------ *)
+(* MemFS reads the flag word through [to_open_mode], open(2) through [decode_flags]: both depend only on the access mode
+   (flag land 3, the invalid value 3 included) and the bits O_CREATE, O_EXCL, O_TRUNC, O_APPEND ([om_bits]).  [open_sim]: the
+   same resulting file system; the same errno, or the handle is on the node open(2) returns.  (The offset and the append
+   mode of the handle belong to C02.) *)
+Theorem C01_open_mode_bits : forall flag : N,
+  let om := to_open_mode flag in
+  has om OpenCreateExcl = has flag O_CREATE && has flag O_EXCL
+  /\ has om OpenCreate = has flag O_CREATE
+  /\ has om OpenTruncate = has flag O_TRUNC
+  /\ has om OpenWrite = negb (N.eqb (N.land flag 3) 0).
+Proof. exact om_bits. Qed.
+
+(* without O_CREATE: O_RDONLY, O_WRONLY, O_RDWR, each with or without O_TRUNC and O_APPEND *)
+Theorem C01_step_open_nocreate : forall (s : fsys) (sv : sview) (vi : nat) (cs : list str) (flag perm : N),
+  step_hyps s sv -> path_ok s sv SlEval cs -> has flag O_CREATE = false ->
+  open_sim (open_file s (sv_view sv) vi (abs_path cs) flag perm) (k_open s sv (abs_path cs) flag perm).
+Proof. exact step_open_nocreate. Qed.
+
+(* O_CREATE without O_EXCL (a final link is followed) *)
+Theorem C01_step_open_create : forall (s : fsys) (sv : sview) (vi : nat) (w : list str) (cl : str) (flag perm : N),
+  step_hyps s sv -> path_ok s sv SlLstat (w ++ [cl]) -> path_ok s sv SlEval (w ++ [cl]) ->
+  no_setgid_parent_follow s sv (w ++ [cl]) -> has flag O_CREATE = true -> has flag O_EXCL = false ->
+  open_sim (open_file s (sv_view sv) vi (abs_path (w ++ [cl])) flag perm) (k_open s sv (abs_path (w ++ [cl])) flag perm).
+Proof. exact step_open_create. Qed.
+
+(* O_CREATE with O_EXCL (a final link is not followed: EEXIST, also on a dangling link) *)
+Theorem C01_step_open_excl : forall (s : fsys) (sv : sview) (vi : nat) (w : list str) (cl : str) (flag perm : N),
+  step_hyps s sv -> path_ok s sv SlLstat (w ++ [cl]) -> no_setgid_parent s sv (w ++ [cl]) ->
+  has flag O_CREATE = true -> has flag O_EXCL = true ->
+  let p := abs_path (w ++ [cl]) in
+  open_sim (open_file s (sv_view sv) vi p flag perm) (k_open s sv p flag perm).
+Proof. exact step_open_excl. Qed.
+
+(* the history theorem with OpenFile of any flag word among the covered calls ([covered_o] = [covered_m] or that) *)
+Theorem C01_history_inv_o : forall (vi : nat) (cs : list call) (w : world) (sw : sworld),
+  Inv w -> absw w vi sw -> us_admin (v_user (sv_view (sw_sv sw))) = true -> links_ok (f_heap (w_fs w)) ->
+  call_ok_run_o vi sw cs ->
+  Forall2 obs_sim (snd (impl_run w cs)) (snd (spec_run sw cs))
+  /\ absw (fst (impl_run w cs)) vi (fst (spec_run sw cs))
+  /\ Inv (fst (impl_run w cs)) /\ links_ok (f_heap (w_fs (fst (impl_run w cs)))).
+Proof. exact history_inv_o. Qed.
+
+Example C01_history_inv_o_example :
+  (Forall2 obs_sim (snd (impl_run StepExamples.w_tree StepHistOExamples.ho)) (snd (spec_run StepExamples.sw_tree StepHistOExamples.ho))
+   /\ absw (fst (impl_run StepExamples.w_tree StepHistOExamples.ho)) 0 (fst (spec_run StepExamples.sw_tree StepHistOExamples.ho))
+   /\ Inv (fst (impl_run StepExamples.w_tree StepHistOExamples.ho))
+   /\ links_ok (f_heap (w_fs (fst (impl_run StepExamples.w_tree StepHistOExamples.ho)))))
+  /\ snd (spec_run StepExamples.sw_tree StepHistOExamples.ho)
+     = [SOk; SOk; SErr EISDIR; SOk; SErr EEXIST; SErr EEXIST; SOk; SOk].
+Proof. split; [exact StepHistOExamples.ho_inv|exact StepHistOExamples.ho_results]. Qed.
